@@ -74,7 +74,7 @@ PROPS = {
                 pending=['pow / round / quantize / the Decimal builtins against ℚ (+ - * / and the comparisons are: arithmetic_is_correctly_rounded, comparisons_are_rational_order in SqProps/C08Rat.lean)']),
     'C09': dict(obligations=lambda: P('SqProps.C09') + SHAPE_OPS,
                 slices=['probe'], monitors=['c09'],
-                pending=['big-step statements for the three-part slice node and for callbacks driven by map / filter / reduce / sorted (proved with the frame lemma for every single-operand frame, strict binary operators, and / or, if-else, call arguments, dict literals and statement lists of any size)']),
+                pending=['callbacks whose application RAISES inside a higher-order call (the returning case is hof_big_step; the raising case is the one-transition lemma raise_skips_*)']),
     'C10': dict(obligations=lambda: P('SqProps.C10') + P('SqProps.C10Run'),
                 slices=['scope', 'session_scope'], monitors=['c10'],
                 pending=['programs WITH mutators: a mutator reaches a scope dictionary only through a reference to it, and no value ever refers to one (heap-level separation invariant, world-relative) — for mutator-free programs assignments_in_calls_leave_covered_scopes is proved over whole runs; scope_balanced over all runs']),
